@@ -626,3 +626,65 @@ def is_inside(root, inner, outer):
     if si is None or so is None:
         return getattr(outer, "lineno", 0) <= getattr(inner, "lineno", 0) <= getattr(outer, "end_lineno", 0)
     return so[0] <= si[0] and si[1] <= so[1]
+
+
+def path_returns(func_node, limit=64):
+    """The returned expressions of a loop-free function, one per syntactic path, with the local assignments made on that path
+    substituted (a tiny symbolic run over assignments / if / return: `d = A; if c: d = B; return d` gives [B, A]).  None when the
+    body uses anything else (loops, try, with, augmented stores into subscripts, ...)."""
+    import copy
+
+    def subst(e, env):
+        class T(ast.NodeTransformer):
+            def visit_Name(self, n):
+                if isinstance(n.ctx, ast.Load) and n.id in env:
+                    return copy.deepcopy(env[n.id])
+                return n
+        return T().visit(copy.deepcopy(e))
+    out = []
+
+    def run(stmts, env):
+        """returns list of environments that fall through, or None on an unsupported statement"""
+        envs = [env]
+        for st in stmts:
+            nxt = []
+            for ev in envs:
+                if isinstance(st, ast.Expr) and isinstance(st.value, ast.Constant):
+                    nxt.append(ev)
+                elif isinstance(st, ast.Pass):
+                    nxt.append(ev)
+                elif isinstance(st, ast.Assign) and len(st.targets) == 1 and isinstance(st.targets[0], ast.Name):
+                    e2 = dict(ev)
+                    e2[st.targets[0].id] = subst(st.value, ev)
+                    nxt.append(e2)
+                elif isinstance(st, ast.AugAssign) and isinstance(st.target, ast.Name):
+                    e2 = dict(ev)
+                    cur = ev.get(st.target.id, ast.Name(id=st.target.id, ctx=ast.Load()))
+                    e2[st.target.id] = ast.BinOp(left=copy.deepcopy(cur), op=st.op, right=subst(st.value, ev))
+                    nxt.append(e2)
+                elif isinstance(st, ast.Return):
+                    if st.value is None:
+                        return None
+                    out.append(subst(st.value, ev))
+                    if len(out) > limit:
+                        return None
+                elif isinstance(st, ast.If):
+                    a = run(st.body, dict(ev))
+                    b = run(st.orelse, dict(ev))
+                    if a is None or b is None:
+                        return None
+                    nxt.extend(a + b)
+                elif isinstance(st, ast.Raise):
+                    pass
+                else:
+                    return None
+            envs = nxt
+            if len(envs) > limit:
+                return None
+        return envs
+    r = run(func_node.body, {})
+    if r is None:
+        return None
+    for x in out:
+        ast.fix_missing_locations(x)
+    return out
